@@ -70,6 +70,10 @@ CHECKS = {
                 technique="bounded-exhaustive enumeration of definition programs (all reference shapes x placements), one compile per program, outputs loaded in Python / gcc / node / a MATLAB-subset interpreter",
                 text="Every program of up to 3-4 definitions (alias, struct, message, signal, field-list reuse) in which each definition refers to a native type or to any earlier definition in every permitted way, for every resolvable root/imported placement, plus one program per remaining documented construct; compile() must not raise, the Python module must import and register every message with its recorded size, the C header must compile, every JavaScript factory must return fresh objects with distinct array elements, and the MATLAB script must define before use.",
                 note="MATLAB is only checked by a subset interpreter (no MATLAB/Octave in the sandbox). Known findings (open): emission order of aliases of structs and of structs with message-typed fields in all four back ends."),
+    "C04": dict(engine="DEFX", level="exploration", ref="DESIGN.md 4/C04",
+                technique="bounded-exhaustive enumeration of definition programs compiled by the real compiler; five observers (Python import, gcc probe, node dump, MATLAB-subset interpreter, parser model) reduced to one signature and compared pairwise",
+                text="Field sequences over all 26 native type names, aliases (of natives, of aliases), nested structs of alignment 1/2/4/8 and a nested message x seven length forms (none, literals, constant, constant expressions), as structs and messages, with signals, field-list reuse, auto-inserted padding, constants / string constants / module ids / host ids / reserved ids, split over import shapes: ids, hashes, constants, field names, order, element kinds and widths, array lengths, offsets and sizes agree between all outputs.",
+                note="Trusted: gcc x86-64, node 20, the MATLAB-subset interpreter. Scalar == length-1 array and MATLAB int8 == C char are declared equivalent; JavaScript carries no element widths (names, order, nesting and array lengths are compared)."),
 }
 
 ALL = [f"C{i:02d}" for i in range(1, 20)]
